@@ -483,24 +483,30 @@ def n_hkaSkeletonLocalFrameOnBone : Bytes :=
 def n_hkaSkeletonPartition : Bytes :=
   [104, 107, 97, 83, 107, 101, 108, 101, 116, 111, 110, 80, 97, 114, 116, 105, 116, 105, 111, 110]
 
-/-- the type table Havok 2012 writes for a skeleton (types 1..7; the classes of the members that
-skeleton files leave empty are referenced by name only) -/
-def stdTypes : List TypeDecl := [
-  ⟨n_hkRootLevelContainer, 0, 0, [⟨n_namedVariants, 0x19, 0, n_hkRootLevelContainerNamedVariant⟩]⟩,
+def tRoot : TypeDecl :=
+  ⟨n_hkRootLevelContainer, 0, 0, [⟨n_namedVariants, 0x19, 0, n_hkRootLevelContainerNamedVariant⟩]⟩
+def tNamedVariant : TypeDecl :=
   ⟨n_hkRootLevelContainerNamedVariant, 0, 0,
-    [⟨n_name, 10, 0, []⟩, ⟨n_className, 10, 0, []⟩, ⟨n_variant, 8, 0, n_hkReferencedObject⟩]⟩,
-  ⟨n_hkBaseObject, 0, 0, []⟩,
-  ⟨n_hkReferencedObject, 0, 3, [⟨n_memSizeAndFlags, 2, 0, []⟩, ⟨n_referenceCount, 2, 0, []⟩]⟩,
+    [⟨n_name, 10, 0, []⟩, ⟨n_className, 10, 0, []⟩, ⟨n_variant, 8, 0, n_hkReferencedObject⟩]⟩
+def tBase : TypeDecl := ⟨n_hkBaseObject, 0, 0, []⟩
+def tReferenced : TypeDecl :=
+  ⟨n_hkReferencedObject, 0, 3, [⟨n_memSizeAndFlags, 2, 0, []⟩, ⟨n_referenceCount, 2, 0, []⟩]⟩
+def tContainer : TypeDecl :=
   ⟨n_hkaAnimationContainer, 1, 4,
     [⟨n_skeletons, 0x18, 0, n_hkaSkeleton⟩, ⟨n_animations, 0x18, 0, n_hkaAnimation⟩,
      ⟨n_bindings, 0x18, 0, n_hkaAnimationBinding⟩, ⟨n_attachments, 0x18, 0, n_hkaBoneAttachment⟩,
-     ⟨n_skins, 0x18, 0, n_hkaMeshBinding⟩]⟩,
+     ⟨n_skins, 0x18, 0, n_hkaMeshBinding⟩]⟩
+def tSkeleton : TypeDecl :=
   ⟨n_hkaSkeleton, 5, 4,
     [⟨n_name, 10, 0, []⟩, ⟨n_parentIndices, 0x12, 0, []⟩, ⟨n_bones, 0x19, 0, n_hkaBone⟩,
      ⟨n_referencePose, 0x16, 0, []⟩, ⟨n_referenceFloats, 0x13, 0, []⟩, ⟨n_floatSlots, 0x1a, 0, []⟩,
      ⟨n_localFrames, 0x19, 0, n_hkaSkeletonLocalFrameOnBone⟩,
-     ⟨n_partitions, 0x19, 0, n_hkaSkeletonPartition⟩]⟩,
-  ⟨n_hkaBone, 0, 0, [⟨n_name, 10, 0, []⟩, ⟨n_lockTranslation, 1, 0, []⟩]⟩]
+     ⟨n_partitions, 0x19, 0, n_hkaSkeletonPartition⟩]⟩
+def tBone : TypeDecl := ⟨n_hkaBone, 0, 0, [⟨n_name, 10, 0, []⟩, ⟨n_lockTranslation, 1, 0, []⟩]⟩
+
+/-- the type table Havok 2012 writes for a skeleton (types 1..7; the classes of the members that
+skeleton files leave empty are referenced by name only) -/
+def stdTypes : List TypeDecl := [tRoot, tNamedVariant, tBase, tReferenced, tContainer, tSkeleton, tBone]
 
 /-- a bone as stored: the fourth components of translation and scale and the lock flag are in the
 file but not in the parsed `Bone` -/
